@@ -32,6 +32,7 @@ KNOWN_FINDINGS.jsonl.  Any other miss gets a class of its own and is reported.""
 import json
 import math
 import warnings
+import zlib
 
 import numpy as np
 import pandas as pd
@@ -373,7 +374,7 @@ class C06(Prop):
             "or an element of a vector, all four functions of both laws) gives zero, never nan or an error; strain / strain_secondary_branch "
             "= Ramberg-Osgood (delta) strain of the stress (independent formula, relative 1e-12) for ndarray / Series / scalar / a vector with "
             "zeros, odd, and at the returned stress equal to the right-hand side of the defining equation at the reference root within the "
-            "propagated tolerance; Seeger-Beste: a 2-d load / stress array with one K_p per column (law built with a K_p vector; array path only) equals the per-column calls bit for bit, keeps its shape, and holds roots within the tolerance (class seegerbeste-ndim); a re-used object whose K_p / K' were changed through the setters behaves as a freshly constructed one; a "
+            "propagated tolerance; Seeger-Beste: a 2-d load / stress array with one K_p per column (law built with a K_p vector; array path only) equals the per-column calls bit for bit, keeps its shape, and holds roots within the tolerance (class seegerbeste-ndim); several law objects alive at once (both classes, equal and different materials and K_p): after K / K_prime / K_p setter calls on ONE of them every object equals a fresh law with its own reported parameters bit for bit, untouched objects give what they gave before, laws built afterwards from the original parameters give what the first objects gave, roots and strains satisfy the equation written out with the reported parameters (class law-objects-interfere), and no call alters the values or the index of an ndarray / Series argument (class *-argument-modified; a renamed Series is only counted); a re-used object whose K_p / K' were changed through the setters behaves as a freshly constructed one; a "
             "solver RuntimeError is a failure (class *-solver-raises unless the recorded defective algorithm raises on the same call).  All "
             "clauses are evaluated for every case (a known-class failure only removes that element from the relations between values); "
             "counts per class in distribution.failing_cases_* / failing_elements_*.  Non-trivial = every case in which at least one solver "
@@ -963,6 +964,152 @@ class C06(Prop):
             F.extend(self._oracle_strain(case, br, name, r, taint, a is not None))
         if not neuber:
             F.extend(self._oracle_ndim(case))
+        # (a third of the generated cases, chosen by their content, and every case that asks for it: about 150 solver calls each)
+        if case.get("several", zlib.crc32(json.dumps(case, sort_keys=True).encode()) % 3 == 0):
+            F.extend(self._oracle_several(case))
+        return F
+
+    # -------------------------------------------------------------- several law objects alive at once
+    def _eval_all(self, law, lawname, Ls, t, F, tag):
+        """every public function of one law object on an ndarray and a labelled Series (fresh argument objects, kept copies):
+        dict name -> list of floats | exception name.  A call that alters the VALUES or the INDEX of an argument is a failure
+        (the caller's data would give other results later); other attributes of the argument are outside the property."""
+        arr = np.array(Ls + [-x for x in Ls])
+        out = {}
+
+        def run(name, f, args, two=False):
+            kept = [a.copy() for a in args]
+            r = call2(f, *args) if two else call(f, args[0], t)
+            for a, k in zip(args, kept):
+                same_vals = np.array_equal(np.asarray(a), np.asarray(k), equal_nan=True)
+                same_idx = not isinstance(a, pd.Series) or a.index.equals(k.index)
+                if not (same_vals and same_idx):
+                    F.append((f"{tag}: {name}() altered its argument: {np.asarray(k).tolist()!r} -> {np.asarray(a).tolist()!r}"
+                              + ("" if same_idx else f", index {list(k.index)!r} -> {list(a.index)!r}"), f"{lawname}-argument-modified"))
+                elif isinstance(a, pd.Series) and a.name != k.name:
+                    self._count("argument_series_renamed")
+            out[name] = r
+            return r
+        idx = pd.Index([7 * i + 3 for i in range(len(arr))][::-1], name="node_id")
+        for sfx, m in (("", 1.0), ("_secondary_branch", 2.0)):
+            s = run("stress" + sfx, getattr(law, "stress" + sfx), [arr * m])
+            run("stress" + sfx + "[Series]", getattr(law, "stress" + sfx), [pd.Series(arr * m, index=idx, name="load")])
+            sv = np.array(s) if isinstance(s, list) and len(s) == len(arr) and all(v == v for v in s) else arr * m / 2
+            run("load" + sfx, getattr(law, "load" + sfx), [sv.copy()])
+            run("load" + sfx + "[Series]", getattr(law, "load" + sfx), [pd.Series(sv.copy(), index=idx, name="stress")])
+            run("strain" + sfx, getattr(law, "strain" + sfx), [sv.copy(), arr * m], two=True)
+        return out
+
+    def _oracle_several(self, case):
+        """Several law objects alive at once (both classes; equal and different E, K', n', K_p): after the setters of ONE of them
+        were used, EVERY object gives what a fresh law with ITS OWN reported parameters gives (bit for bit), what it gave before
+        when it was not touched, and roots / strains of its defining equation written out with its own reported parameters; laws
+        built afterwards from the original parameters give what the first objects gave."""
+        import random
+        import pylife.materiallaws.notch_approximation_law as nal
+        import pylife.materiallaws.notch_approximation_law_seegerbeste as sbm
+        F = []
+        rng = random.Random(json.dumps({k: v for k, v in case.items() if k != "history"}, sort_keys=True))
+        E, K, n_, Kp, t = case["E"], case["K"], case["n"], case["Kp"], case["tol"]
+        Ls = [float(x) for x in case["loads"]]
+        Ls = sorted({Ls[0], Ls[len(Ls) // 2], Ls[-1]})
+        cls = {"neuber": nal.ExtendedNeuber, "sb": sbm.SeegerBeste}
+        other = "sb" if case["law"] == "neuber" else "neuber"
+        kp_sb = Kp if Kp > 1 else 1.5
+        K2 = K * rng.choice([0.8, 1.3])
+        specs = [(case["law"], E, K, n_, Kp),
+                 (other, E, K, n_, kp_sb if other == "sb" else Kp),            # the other class, same material
+                 (rng.choice(["neuber", "sb"]), E, K2, n_, rng.choice([1.5, 3.5])),     # another material
+                 (rng.choice(["neuber", "sb"]), E, K, n_, rng.choice([2.0, 10.0]))]     # same material, another K_p
+        rng.shuffle(specs)
+        laws = [cls[c](e, k, n, kp) for c, e, k, n, kp in specs]
+        lname = ["neuber" if c == "neuber" else "seegerbeste" for c, *_ in specs]
+
+        def tagof(i, when):
+            return (f"{specs[i][0]} object {i} of {len(specs)} living objects {[(c, k, kp) for c, _e, k, _n, kp in specs]!r} (law, K', K_p; E={E!r}, "
+                    f"n'={n_!r}), {when}, reporting E={laws[i].E!r} K'={laws[i].K!r} n'={laws[i].n!r} K_p={laws[i].K_p!r}, rtol=tol={t!r}")
+
+        def differs(a, b):
+            for name in a:
+                x, y = a[name], b.get(name)
+                if isinstance(x, str) or isinstance(y, str):
+                    if x != y:
+                        return f"{name}: {x if isinstance(x, str) else 'values'} vs {y if isinstance(y, str) else 'values'}"
+                    continue
+                for u, v in zip(x, y):
+                    if not (u == v or (u != u and v != v)):
+                        return f"{name}: {x!r} vs {y!r}"
+            return None
+
+        def own_equation(i, res, when):
+            c = {"law": specs[i][0], "E": laws[i].E, "K": laws[i].K, "n": laws[i].n, "Kp": laws[i].K_p}
+            arr = Ls + [-x for x in Ls]
+            for br, sfx, m in ((1, "", 1.0), (2, "_secondary_branch", 2.0)):
+                s = res.get("stress" + sfx)
+                if not isinstance(s, list) or len(s) != len(arr):
+                    self._count("several_objects_solver_raises")
+                    continue
+                self._count("several_objects_values_checked", len(s))
+                for L, v in zip(arr, s):
+                    root = math.copysign(ref_root(c, br, abs(L * m)), L)
+                    if not abs(v - root) <= t + t * abs(root):
+                        return (f"{tagof(i, when)}: stress{sfx}({L * m!r}) = {v!r}; the root of the defining equation with the reported "
+                                f"parameters is {root!r}")
+                e = res.get("strain" + sfx)
+                if isinstance(e, list) and len(e) == len(s):
+                    for v, ev in zip(s, e):
+                        w = ro(c["E"], c["K"], c["n"], v) if br == 1 else 2 * ro(c["E"], c["K"], c["n"], v / 2)
+                        if not (ev == w or abs(ev - w) <= 1e-12 * abs(w)):
+                            return (f"{tagof(i, when)}: strain{sfx}({v!r}) = {ev!r}; Ramberg-Osgood strain with the reported parameters {w!r}")
+            return None
+
+        before = [self._eval_all(l, lname[i], Ls, t, F, tagof(i, "first use")) for i, l in enumerate(laws)]
+        for i in range(len(laws)):
+            d = own_equation(i, before[i], "first use")
+            if d:
+                F.append((d, "law-objects-interfere"))
+        orig_specs = list(specs)
+        # the setters of ONE object, in random order
+        j = rng.randrange(len(laws))
+        steps = [("K_p", rng.choice([k for k in (1.5, 2.5, 5.0) if k != laws[j].K_p])),
+                 (rng.choice(["K", "K_prime"]), K * rng.choice([0.7, 1.25, 1.6])),
+                 (rng.choice(["K", "K_prime"]), K * rng.choice([0.9, 1.1]))]
+        rng.shuffle(steps)
+        for attr, val in steps[:rng.randint(1, 3)]:
+            setattr(laws[j], attr, val)
+            specs[j] = (specs[j][0],) + (specs[j][1], val, specs[j][3], specs[j][4]) if attr != "K_p" else specs[j][:4] + (val,)
+        how = f"after {[a for a, _v in steps]!r}-setter calls on object {j}"
+        after = [self._eval_all(l, lname[i], Ls, t, F, tagof(i, how)) for i, l in enumerate(laws)]
+        for i, l in enumerate(laws):
+            d = own_equation(i, after[i], how)
+            if d:
+                F.append((d, "law-objects-interfere"))
+            if i != j:
+                d = differs(before[i], after[i])
+                if d:
+                    F.append((f"{tagof(i, how)}: an object that was not touched gives other results than before - {d}", "law-objects-interfere"))
+            fresh = cls[specs[i][0]](l.E, l.K, l.n, l.K_p)
+            d = differs(after[i], self._eval_all(fresh, lname[i], Ls, t, F, tagof(i, "fresh law with the same reported parameters")))
+            if d:
+                F.append((f"{tagof(i, how)}: differs from a law freshly built with the parameters it reports - {d}",
+                          "law-objects-interfere" if i != j else f"{lname[i]}-history"))
+        # laws built afterwards from the ORIGINAL parameters give what the first objects gave
+        for i, (c, e, k, n, kp) in enumerate([(case["law"], E, K, n_, Kp), (other, E, K, n_, kp_sb if other == "sb" else Kp)]):
+            late = cls[c](e, k, n, kp)
+            res = self._eval_all(late, "neuber" if c == "neuber" else "seegerbeste", Ls, t, F, f"{c} law built after the setter calls")
+            d = differs(before[orig_specs.index((c, e, k, n, kp))], res)
+            if d:
+                F.append((f"{c} law built {how} from the original parameters E={e!r}, K'={k!r}, n'={n!r}, K_p={kp!r} gives other results than "
+                          f"the first object with these parameters gave - {d}", "law-objects-interfere"))
+            ce = {"law": c, "E": late.E, "K": late.K, "n": late.n, "Kp": late.K_p}
+            s = res.get("stress")
+            if isinstance(s, list):
+                for L, v in zip(Ls + [-x for x in Ls], s):
+                    root = math.copysign(ref_root(ce, 1, abs(L)), L)
+                    if not abs(v - root) <= t + t * abs(root):
+                        F.append((f"{c} law built {how} from E={e!r}, K'={k!r}, n'={n!r}, K_p={kp!r} (reporting K'={late.K!r}): stress({L!r}) = {v!r}; "
+                                  f"root of the defining equation with these parameters {root!r}", "law-objects-interfere"))
+                        break
         return F
 
     def _oracle_ndim(self, case):
